@@ -11,7 +11,7 @@ from .tlc import MachineryError
 
 PROPS = ["C%02d" % i for i in range(1, 21)]
 # extensions beyond the listed properties (DESIGN.md section 11); run by ./extras, not registered in MANIFEST.json
-EXTRAS = ["X01", "X02", "X03", "X04", "X05"]
+EXTRAS = ["X01", "X02", "X03", "X04", "X05", "X06"]
 
 
 def setup():
